@@ -329,6 +329,73 @@ func runC17(ctx *h.Ctx) int {
 		k.Count("history_pairs_equal", 1)
 		k.Nontrivial("history", fx, len(after.Out)/64)
 	})
+	// (a4) history of FAILED compilations: names used by programs that were rejected (in the parser, in the
+	// emitter) must not influence a later, valid program that uses the same names differently
+	ctx.RunCases("history-after-errors", ctx.N(60, 1500), func(k *h.Case) {
+		prof := profFull()
+		prof.WLabel = 10
+		g := spec.NewGen(k.R, prof)
+		prog := g.FullProgram(1 + k.R.IntN(3))
+		lbl := g.Name("LblShared")
+		var first *spec.Script
+		for _, it := range prog.Items {
+			if sc, ok := it.(*spec.Script); ok && first == nil {
+				first = sc
+			}
+		}
+		if first == nil {
+			first = &spec.Script{ID: prog.NewID(), Name: g.Name("Scr"), Body: &spec.Block{ID: prog.NewID()}}
+			prog.Items = append(prog.Items, first)
+		}
+		first.Body.Stmts = append([]spec.Stmt{&spec.Label{ID: prog.NewID(), Name: lbl}, &spec.CmdStmt{Cmd: g.Cmd()}}, first.Body.Stmts...)
+		srcX := spec.Source(prog)
+		k.SetSource(srcX)
+		ox := optsOf(prog, k.R.IntN(2) == 0)
+		dir := workDir(k)
+		defer cleanWork(dir)
+		fresh := runCLI(dir, srcX, prog, ox.Optimize, false)
+		k.Count("evaluations", 1)
+		if fresh.Err != nil {
+			k.C.Inconclusive("cannot run CLI: %v", fresh.Err)
+			return
+		}
+		// failing programs that use X's names in other roles
+		scr := g.Name("ScrBad")
+		bad := []string{
+			// rejected by the emitter: a label equal to the script's own name; a text is named like X's label
+			"text " + lbl + " { \"stale\" }\nmovement " + first.Name + "_Movement_0 { walk_up }\nscript " + scr + " { lock\n" + scr + ":\n end }\n",
+			// rejected by the emitter: a label equal to a text label; X's script name is used as a text name
+			"text " + first.Name + " { \"stale\" }\ntext TxtClash { \"x\" }\nscript " + scr + " { TxtClash:\n end }\n",
+			// rejected by the parser half-way through: constants and texts already registered
+			"const " + lbl + " = 5\nconst " + first.Name + " = 6\ntext " + lbl + " { \"stale\" }\nscript " + scr + " { msgbox(\"" + lbl + "\") if (flag(",
+			// rejected by the parser: break outside, after hoisting texts named after X's script
+			"script " + first.Name + " { msgbox(\"one\") msgbox(\"two\") }\nscript " + scr + " { break }\n",
+		}
+		for i, y := range bad {
+			if k.R.IntN(4) == 0 {
+				continue
+			}
+			r := h.Compile(y, ox)
+			k.Count("evaluations", 1)
+			if r.OK() {
+				k.C.Note("history-after-errors: program %d unexpectedly compiled", i)
+			} else {
+				k.Count("failed_compilations_before", 1)
+			}
+		}
+		after := h.Compile(srcX, ox)
+		k.Count("evaluations", 1)
+		if after.OK() != (fresh.Exit == 0) {
+			k.Violation("failed-history-changes-acceptance", fmt.Sprintf("after failed compilations in this process: %q; in a fresh process: exit %d %s", after.ErrString(), fresh.Exit, firstLineOf(fresh.Stderr)), map[string]interface{}{"failed_before": bad})
+			return
+		}
+		if after.OK() && after.Out != fresh.Out {
+			k.Violation("failed-history-changes-output", "the output of a valid input compiled after failed compilations differs from its output in a fresh process", map[string]interface{}{"fresh": fresh.Out, "after": after.Out, "failed_before": bad})
+			return
+		}
+		k.Count("after_error_pairs_equal", 1)
+		k.Nontrivial("aftererr", after.OK(), len(after.Out)/64)
+	})
 	// (b) independence from the other top-level statements
 	ctx.RunCases("independence", ctx.N(1500, 100000), func(k *h.Case) {
 		prof := profFull()
